@@ -742,7 +742,10 @@ def judge(chk, traces, label, seen, flags, selftest=False):
         v = verdicts[t["tid"]]
         count_monitors(chk, t)
         unknown = False
+        vset = set((m, l) for m, l in v["viol"])
         for m, l in sorted(v["viol"], key=lambda x: (x[1], x[0])):
+            if m in INVS and (m, l - 1) in vset:
+                continue                    # a state invariant is reported at the step that breaks it, not at every step after
             sig = classify(t, l)
             gk = (m, sig["case"], sig["op"], sig["target"]) if sig["case"] == "other" else (m, sig["case"])
             ck = "/".join(gk)
@@ -860,15 +863,20 @@ def main(tier, seed):
     two = [["norm", "norm"], ["bad", "sync"]]
     hist = replay_graph(chk, "R_ctl2", ([1, 2], [], []), prios=[[0, 0], [1, 0]], kinds=two, waits=[0, 1], delays=[], maxcb=0, flags=flags)
     if thorough:
-        hist += replay_graph(chk, "R_ctl3", ([1, 2, 3], [], []), prios=P3[:3], kinds=[N3, ["norm", "bad", "sync"]], waits=[0, 1],
-                             delays=[], maxcb=0, ops=["request", "complete", "abort", "cabort", "qabort"], flags=flags)
+        hist += replay_graph(chk, "R_ctl3", ([1, 2, 3], [], []), prios=P3[:3], kinds=[N3], waits=[0, 1], delays=[], maxcb=0,
+                             ops=["request", "complete", "cabort"], flags=flags)
+        hist += replay_graph(chk, "R_ctl3k", ([1, 2, 3], [], []), prios=P3[:1], kinds=[["norm", "bad", "sync"]], waits=[0], delays=[],
+                             maxcb=0, flags=flags)
         hist += replay_graph(chk, "R_timers", ([1, 2], [], []), prios=[[0, 0]], kinds=two[:1], waits=[0, 1], delays=[1], maxcb=1, cbon=[1],
                              timeron=[1, 2], ops=["request", "complete", "abort", "settle"], flags=flags)
         hist += replay_graph(chk, "R_group", ([1, 2], [], [3]), prios=[[0, 0, 0]], kinds=[N3], waits=[0], delays=[1], maxcb=1,
-                             cbon=[1, 3], timeron=[3], ops=["request", "complete", "abort", "gabort"], flags=flags)
-        hist += replay_graph(chk, "R_chain", ([1], [2], [3]), prios=[[0, 0, 0]], kinds=[N3], waits=[0], delays=[1], enc=[False, True],
-                             dec=[False, True], maxcb=1, cbon=[1, 3], timeron=[1], ops=["request", "complete", "abort", "gabort"],
-                             flags=flags)
+                             cbon=[3], timeron=[3], ops=["complete", "abort", "gabort"], flags=flags)
+        hist += replay_graph(chk, "R_groupq", ([1, 2], [], [3]), prios=[[0, 0, 0]], kinds=[N3], waits=[0], delays=[], maxcb=1,
+                             cbon=[3], ops=["request", "complete", "gabort"], flags=flags)
+        hist += replay_graph(chk, "R_chain", ([1, 2], [3], []), prios=[[0, 0, 0]], kinds=[N3], waits=[0], delays=[], enc=[False, True],
+                             dec=[False, True], maxcb=1, cbon=[1], ops=["request", "complete", "abort"], flags=flags)
+        hist += replay_graph(chk, "R_chaing", ([1], [2], [3]), prios=[[0, 0, 0]], kinds=[N3], waits=[0], delays=[], enc=[False, True],
+                             dec=[False, True], maxcb=1, cbon=[3], ops=["request", "complete", "abort", "gabort"], flags=flags)
     else:
         hist += replay_graph(chk, "R_ctl3", ([1, 2, 3], [], []), prios=P3[:3], kinds=[N3], waits=[0], delays=[], maxcb=0,
                              ops=["request", "complete", "cabort"], flags=flags)
